@@ -203,7 +203,41 @@ def replay_hash_args(sp):
                 input="sequence %r: detDF(args1), [in-place update of the point array], detDF(args2) on one MappingIsoparametric" % label)
 
 
+def element_global_dropped_mesh(name="ElementTriMorley", rounds=30):
+    """one element object used on a mesh that is then dropped and garbage collected, then on a new mesh of equal size and other geometry (preferring a new mesh
+    object that the allocator places at the address of the dropped one): values == those of a fresh element.  -> (ok, detail)"""
+    import gc
+    import skfem as fem
+    mk = getattr(fem, name)
+    make = lambda k: fem.MeshTri().refined(1).scaled((1. + k, 1. / (1. + k)))
+    shared, hits = mk(), 0
+    for k in range(1, rounds + 1):
+        first = make(0)
+        fem.Basis(first, shared)
+        address = id(first)
+        del first
+        gc.collect()
+        keep, second = [], None
+        for j in range(300):
+            cand = make(k)
+            if id(cand) == address:
+                second, hits = cand, hits + 1
+                break
+            if j % 3:
+                keep.append(cand)
+        second = cand if second is None else second
+        del keep
+        b2, b3 = fem.Basis(second, shared), fem.Basis(make(k), mk())
+        err = max(float(np.max(np.abs(np.asarray(x[0]) - np.asarray(y[0])))) for x, y in zip(b2.basis, b3.basis))
+        if err > 1e-8:
+            return False, "round %d: one %s object used on a dropped mesh and then on a new mesh gives basis values differing from a fresh element's by %.3e" % (k, name, err)
+    return True, "%d rounds, %d with the new mesh at the address of the dropped one" % (rounds, hits)
+
+
 def replay_element_global(sp):
+    if sp.get("case") == "dropped-mesh":
+        ok, det = element_global_dropped_mesh(sp["name"])
+        return dict(confirmed=bool(not ok), observed=det, input="%s object used on a mesh that is garbage collected, then on a new mesh" % sp["name"])
     import skfem as fem
     name = sp["name"]
     mk = getattr(fem, name)
